@@ -134,10 +134,12 @@ PROFILES = {
     "C10": [("listeners", dict(n_listen=(2, 6), unlisten=0.5, intxn_defs=0.6, drops=0.3, gcs=0.3, weak=0.15, weights=W(value=2, hold=3, csink=3)))],
     "C11": [("loops", dict(n_defs=(3, 9), samples=0.4, weights=W(sloop=2.5, cloop=2.5, hold=3, snapshot=4, accum=1, merge=4, gate=1, lift2=2, mapc=2))),
             ("loops-misuse", dict(n_defs=(3, 8), malformed=True, weights=W(sloop=2, cloop=2, hold=3, snapshot=3)))],
-    "C12": [("deferred", dict(posts=0.4, samples=0.4, sends_per_txn=(1, 4), weights=W(defer=4, split=3, hold=3, csink=3, snapshot=4, snapshot1=2, once=1.5, accum=1)))],
+    "C12": [("defer-chains", dict(posts=0.3, samples=0.4, obs=0.4, max_defer=3, weights=W(defer=6, split=3, hold=3, csink=3, snapshot=4, snapshot1=2, once=1))),
+            ("deferred", dict(posts=0.4, samples=0.4, sends_per_txn=(1, 4), weights=W(defer=4, split=3, hold=3, csink=3, snapshot=4, snapshot1=2, once=1.5, accum=1)))],
     "C13": [("lifts", dict(samples=0.9, n_defs=(5, 14), intxn_defs=0.3, sends_per_txn=(1, 4), lazies=0.2,
                            weights=W(mapc=5, lift2=6, liftn=3, csink=4, hold=3, ssink=2, updates=2, value=1, switchc=0.7, cloop=0.7)))],
-    "C14": [("brackets", dict(scoped=0.7, deep_nest=0.7, nest=0.95, obs=0.6, intxn_defs=0.3, n_txn=(4, 10), malformed=False))],
+    "C14": [("brackets-deferred", dict(scoped=0.6, deep_nest=0.5, nest=0.9, obs=0.7, max_defer=3, posts=0.3, weights=W(defer=5, split=3, hold=2, csink=2))),
+            ("brackets", dict(scoped=0.7, deep_nest=0.7, nest=0.95, obs=0.6, intxn_defs=0.3, n_txn=(4, 10), malformed=False))],
     "C15": [("sinks", dict(coalesce_sends=True, sends_per_txn=(1, 5), deep_nest=0.4, scoped=0.3, nest=0.8, samples=0.5, weights=W(ssinkc=6, csink=4, ssink=2, hold=3)))],
     "C17": [("lazies", dict(lazies=0.9, samples=0.3, n_txn=(4, 14), weights=W(mapc=4, lift2=3, liftn=1, holdlazy=3, hold=3, csink=4, accum=2, cloop=1)))],
     "C18": [("router", dict(n_defs=(4, 10), drops=0.3, gcs=0.3, weights=W(router=5, ssink=4, map=3, merge=3, hold=1)))],
